@@ -17,6 +17,10 @@ pub struct Case {
     pub batch_frame: bool,
     pub base: Base,
     pub muts: Vec<Mut>,
+    /// before the generated payload, this many empty-batch frames (well-formed, 17 bytes
+    /// each when uncompressed) are sent in one burst
+    #[serde(default)]
+    pub flood: u32,
 }
 
 const PIPES: [u8; 4] = [c06::T_SUB_PLAIN, c06::T_SUB_ZSTD, c06::T_SUB_BROTLI_BINCODE, c06::T_SUB_LZ4_BINCODE];
@@ -30,10 +34,10 @@ fn decomp_algo(t: u8) -> Option<c14::Algo> {
     }
 }
 
-async fn drive<D, Item>(mut sub: selium::keep_alive::pubsub::KeepAlive<selium::pubsub::Subscriber<D, Item>>, publ: Peer, payload: Vec<u8>, batch_frame: bool, good: Vec<u8>) -> Outcome
+async fn drive<D, Item>(mut sub: selium::keep_alive::pubsub::KeepAlive<selium::pubsub::Subscriber<D, Item>>, publ: Peer, payload: Vec<u8>, batch_frame: bool, good: Vec<u8>, flood: u32, good_empty: Vec<u8>) -> Outcome
 where
-    D: selium_std::traits::codec::MessageDecoder<Item> + Send + Unpin,
-    Item: Send + Unpin,
+    D: selium_std::traits::codec::MessageDecoder<Item> + Send + Unpin + 'static,
+    Item: Send + Unpin + 'static,
 {
     // settle with valid batch frames until the subscriber yields something
     let mut settled = false;
@@ -51,6 +55,12 @@ where
     if !settled {
         return Outcome::Inconclusive("warm-up: subscriber saw nothing".into());
     }
+    if flood > 0 {
+        let empty = good_empty.clone();
+        for _ in 0..flood {
+            publ.send(Frame::BatchMessage(empty.clone().into()));
+        }
+    }
     // the generated payload, then a valid frame again
     if batch_frame {
         publ.send(Frame::BatchMessage(payload.into()));
@@ -58,18 +68,32 @@ where
         publ.send(msg(payload));
     }
     publ.send(Frame::BatchMessage(good.clone().into()));
-    let (mut oks, mut errs) = (0, 0);
-    for _ in 0..6 {
-        match tokio::time::timeout(Duration::from_millis(150), sub.next()).await {
-            Ok(Some(Ok(_))) => oks += 1,
-            Ok(Some(Err(_))) => errs += 1,
-            Ok(None) => break,
-            Err(_) => break,
+    // the subscriber is polled by a spawned task, i.e. on a runtime worker thread with its
+    // default stack, like an application would do
+    let (wait, polls) = if flood > 0 { (1500, 3) } else { (150, 6) };
+    let h = tokio::spawn(async move {
+        let (mut oks, mut errs) = (0, 0);
+        for _ in 0..polls {
+            match tokio::time::timeout(Duration::from_millis(wait), sub.next()).await {
+                Ok(Some(Ok(_))) => oks += 1,
+                Ok(Some(Err(_))) => errs += 1,
+                Ok(None) => break,
+                Err(_) => break,
+            }
         }
-    }
+        (oks, errs)
+    });
+    let (oks, errs) = match h.await {
+        Ok(x) => x,
+        Err(e) => return Outcome::fail("panic:subscriber-task", format!("the task polling the subscriber panicked: {e}")),
+    };
     let mut l = vec![];
     if errs > 0 { l.push("subscriber-reported-error"); }
     if oks > 0 { l.push("subscriber-yielded-values"); }
+    if flood > 0 { l.push("empty-batch-burst"); }
+    if flood > 0 && oks == 0 && errs == 0 {
+        return Outcome::Inconclusive("after the burst of empty batches the subscriber yielded nothing within 4.5 s".into());
+    }
     Outcome::pass(l, true)
 }
 
@@ -78,6 +102,14 @@ pub async fn run_case(addr: SocketAddr, certs: &Certs, c: &Case) -> Outcome {
     let wc = c06::Case { target: t, base: c.base.clone(), muts: c.muts.clone() };
     let payload = build_input(&wc);
     let good = c06::valid_encoding(t, 7, 9, 2);
+    // an empty batch in this subscriber's configuration (compressed if it decompresses)
+    let good_empty = {
+        let raw = selium_protocol::utils::encode_message_batch(vec![]);
+        match decomp_algo(t) {
+            Some(a) => c14::make(a).0.compress(raw).map(|b| b.to_vec()).unwrap_or_default(),
+            None => raw.to_vec(),
+        }
+    };
     let tn = format!("case-{}", fresh_id());
     let topic = format!("/c06ns/{tn}");
     let cl = match client(addr, certs).await { Ok(c) => c, Err(e) => return Outcome::Inconclusive(e) };
@@ -90,13 +122,13 @@ pub async fn run_case(addr: SocketAddr, certs: &Certs, c: &Case) -> Outcome {
             if let Some(a) = decomp_algo(t) { b = b.with_decompression(DecompBox(c14::make(a).1)); }
             let sub = match b.open().await { Ok(s) => s, Err(e) => return Outcome::Inconclusive(format!("subscriber open: {e}")) };
             let publ = match raw_open(&conn, reg_pub("c06ns", &tn), Duration::from_secs(8)).await { Ok((s, FirstReply::Frame(Frame::Ok))) => Peer::spawn(s, false), _ => return Outcome::Inconclusive("publisher open".into()) };
-            drive(sub, publ, payload, c.batch_frame, good).await
+            drive(sub, publ, payload, c.batch_frame, good, c.flood, good_empty.clone()).await
         } else {
             let mut b = cl.subscriber(&topic).with_decoder(StringCodec);
             if let Some(a) = decomp_algo(t) { b = b.with_decompression(DecompBox(c14::make(a).1)); }
             let sub = match b.open().await { Ok(s) => s, Err(e) => return Outcome::Inconclusive(format!("subscriber open: {e}")) };
             let publ = match raw_open(&conn, reg_pub("c06ns", &tn), Duration::from_secs(8)).await { Ok((s, FirstReply::Frame(Frame::Ok))) => Peer::spawn(s, false), _ => return Outcome::Inconclusive("publisher open".into()) };
-            drive(sub, publ, payload, c.batch_frame, good).await
+            drive(sub, publ, payload, c.batch_frame, good, c.flood, good_empty.clone()).await
         }
     };
     match tokio::time::timeout(Duration::from_secs(60), fut).await {
@@ -106,7 +138,7 @@ pub async fn run_case(addr: SocketAddr, certs: &Certs, c: &Case) -> Outcome {
 }
 
 pub fn strategy() -> BoxedStrategy<Case> {
-    (0u8..4, prop::bool::weighted(0.7), c06::strategy(vec![0])).prop_map(|(target, batch_frame, c)| Case { target, batch_frame, base: c.base, muts: c.muts }).boxed()
+    (0u8..4, prop::bool::weighted(0.7), c06::strategy(vec![0]), prop_oneof![28 => Just(0u32), 1 => Just(20_000u32), 1 => Just(100_000u32)]).prop_map(|(target, batch_frame, c, flood)| Case { target, batch_frame, base: c.base, muts: c.muts, flood }).boxed()
 }
 
 /// child entry: `verif C06 --net-child <tier> <seed> <journal> <result>`
@@ -154,12 +186,31 @@ pub fn run_in_child(ctx: &mut Ctx) {
         Ok(e) => e,
         Err(e) => return ctx.inconclusive(format!("current_exe: {e}")),
     };
-    let status = std::process::Command::new(exe)
+    let child = std::process::Command::new(exe)
         .args(["C06", "--net-child", ctx.tier.name(), &ctx.seed.to_string(), &journal.to_string_lossy(), &result.to_string_lossy()])
-        .status();
-    let status = match status {
-        Ok(s) => s,
+        .spawn();
+    let mut child = match child {
+        Ok(c) => c,
         Err(e) => return ctx.inconclusive(format!("cannot spawn the loopback child: {e}")),
+    };
+    // the child has its own per-case watchdog; the parent only keeps its own one fed and
+    // bounds the total time
+    let t0 = std::time::Instant::now();
+    let limit = Duration::from_secs(ctx.tier.pick(900, 7200));
+    let status = loop {
+        crate::core::watchdog::tick();
+        match child.try_wait() {
+            Ok(Some(s)) => break s,
+            Ok(None) => {
+                if t0.elapsed() > limit {
+                    let _ = child.kill();
+                    let _ = child.wait();
+                    return ctx.inconclusive("loopback child exceeded its time budget".into());
+                }
+                std::thread::sleep(Duration::from_millis(200));
+            }
+            Err(e) => return ctx.inconclusive(format!("waiting for the loopback child: {e}")),
+        }
     };
     let res: serde_json::Value = std::fs::read_to_string(&result).ok().and_then(|s| serde_json::from_str(&s).ok()).unwrap_or(serde_json::Value::Null);
     match status.code() {
@@ -185,6 +236,30 @@ pub fn run_in_child(ctx: &mut Ctx) {
 }
 
 pub fn replay(id: &str, case: &serde_json::Value) -> i32 {
+    // a recurrence of a process-killing defect must not take the replaying process down with
+    // it: the replay runs in a child, and a child killed by a signal is the violation
+    if std::env::var("VERIF_REPLAY_CHILD").is_err() {
+        let tmp = WorkDir::new();
+        let f = tmp.0.join("c06-replay-case.json");
+        let doc = serde_json::json!({"property": id, "leg": "e2e-subscriber", "case": case});
+        if std::fs::write(&f, doc.to_string()).is_err() {
+            return 2;
+        }
+        let exe = match std::env::current_exe() { Ok(e) => e, Err(_) => return 2 };
+        let st = std::process::Command::new(exe).args([id, "--replay", &f.to_string_lossy()]).env("VERIF_REPLAY_CHILD", "1").status();
+        return match st {
+            Ok(s) => match s.code() {
+                Some(c) => c,
+                None => {
+                    let path = std::env::var("VERIF_REPLAY_PATH").unwrap_or_else(|_| "<given>".into());
+                    println!("replay: the process hosting the real Subscriber was killed by a signal ({s})");
+                    println!("VIOLATION property={id} replay={path}");
+                    1
+                }
+            },
+            Err(_) => 2,
+        };
+    }
     let env = match Env::new() {
         Ok(e) => e,
         Err(e) => {
